@@ -1,5 +1,5 @@
 # replay of a bounded stand-in violation (C06): re-run native/c06_measure.py
 import sys
-print('bosonic MeasureThreshold on mode 0, outcome 1 (probability 0.276): mode 1 has (<n>, <x>, <p>) = [0.4458, 0.8919, 0.3447], the conditional state has [0.3615, 0.5974, 0.469]')
+print('Catstate(1.2, 0.0, p=0.0); BSgate; homodyne(phi=0.00) of q[1] post-selected on 0.35: bosonic leaves q[0] with (<n>, <x>, <x_0.8>, <p>, <x^2>) = [0.5234, 0.7524, 0.5242, 0.0, 3.4868], the conditional state has [0.4798, 0.7261, 0.5419, 0.0502, 3.3996]')
 print('REPLAY-VIOLATION')
 sys.exit(1)
